@@ -52,6 +52,10 @@
 (* indirect, and both paint the same form /Fm1 - so both pages list F1 F2  *)
 (* F3 and show the same codes.  calls[s].ca says whether the /Contents     *)
 (* array in the document's object cache is still what the file says.       *)
+(* dB's form /Fm1 is part of a CYCLE: /Fm1 paints /Fm2, /Fm2 paints /Fm1   *)
+(* and itself.  A form being rendered is identified by its OBJECT NUMBER   *)
+(* (forms_in_progress), so the cycle is cut after "Fm1 Fm2" - identically  *)
+(* whether the form streams come from the object cache or are re-parsed.   *)
 (* dA's /Font dictionaries MIX indirect and direct entries: page 1 lists    *)
 (* /F1 5 0 R, then /F4 << a direct font dictionary >>, then /F2; page 2    *)
 (* lists the direct /F4 first.  A direct font has no object number and is  *)
@@ -105,6 +109,9 @@
 (*                     table                                               *)
 (*   DirectFontInheritsObjId  a direct font dictionary is looked up under  *)
 (*                     the object number of the indirect entry before it   *)
+(*   FormsInProgressByIdentity  a form being rendered is identified by the *)
+(*                     identity of the stream object: with caching off     *)
+(*                     every Do re-parses the form, the cycle is never cut *)
 (*   ContentsArrayConsumed  the content parser takes the streams OUT of the*)
 (*                     /Contents array (pop) - the array is the cached     *)
 (*                     object itself: later pages sharing it are empty     *)
@@ -209,6 +216,8 @@ FontSeq(d, p) == IF SharedPages(d) THEN <<5, 6, 18>>
                  ELSE IF p = 1 THEN <<5, 6>> ELSE IF HasResources(d, p) THEN <<5, 18>> ELSE <<>>
 DefinesForm(d, p) == (d = "dB" /\ p = 1) \/ SharedPages(d)   \* /XObject << /Fm1 .. >> in the page's resources
 UsesForm(d, p)    == d = "dB" \/ SharedPages(d)              \* /Fm1 Do in the page's content
+FormCycle(d) == d = "dB"                                    \* /Fm1 -> /Fm2 -> /Fm1, /Fm2 -> /Fm2
+FormTrace(d) == IF FormCycle(d) THEN "Fm1 Fm2" ELSE "Fm1"    \* the forms painted, each once: a form in progress is not entered again
 HasInline(d, p) == p = 2 \/ SharedPages(d)                   \* an inline image (BI .. ID .. EI)
 HasTie(d, p)    == d = "dB" /\ p = 1      \* text boxes at pairwise equal distances: the grouping order needs a tie-break
 
@@ -233,7 +242,7 @@ RefShow(d, p, k) == LET sh == Shows(d, p)[k] IN
 Fresh(d, p) == [txt |-> [k \in 1..Len(Shows(d, p)) |-> RefShow(d, p, k).text],
                 w   |-> [k \in 1..Len(Shows(d, p)) |-> RefShow(d, p, k).w],
                 n   |-> IF CSOf(d) = 0 \/ ~HasResources(d, p) THEN 1 ELSE CSOf(d),
-                frm |-> IF UsesForm(d, p) /\ DefinesForm(d, p) THEN "drawn" ELSE "",
+                frm |-> IF UsesForm(d, p) /\ DefinesForm(d, p) THEN FormTrace(d) ELSE "",
                 img |-> IF HasInline(d, p) THEN "inline0" ELSE "",           \* name of the inline image: its number on the page
                 grp |-> IF HasTie(d, p) THEN "creation-order" ELSE ""]       \* ties are broken by the order the boxes were made in
 NoRes == [txt |-> <<>>, w |-> <<>>, n |-> 0, frm |-> "", img |-> "", grp |-> ""]
@@ -260,6 +269,7 @@ Free == [st |-> "free", doc |-> "", caching |-> FALSE, pages |-> {}, kind |-> ""
          fm |-> NoFonts, bld |-> NoFont, dec |-> 0, dk |-> 0, csShared |-> FALSE, cs |-> PristineCS, xo |-> FALSE,
          ca |-> TRUE,      \* the /Contents array held in the document's object cache is as parsed (all its streams are there)
          ex |-> TRUE,      \* the content streams of the current page were found and executed
+         ovf |-> FALSE,    \* rendering the page did not end: the form cycle was never cut (RecursionError)
          oc |-> [o \in StmMembers |-> ""]]      \* _cached_objs for the object-stream members: "" | "new" | "old" (stale)
 
 Init == /\ base = [enc |-> PristineEnc, cs |-> PristineCS]
@@ -577,7 +587,7 @@ PageResult(s) ==
   [txt |-> [k \in 1..Len(sh) |-> GlyphText(calls[s].fm[sh[k][1]], sh[k][2])],
    w   |-> [k \in 1..Len(sh) |-> calls[s].fm[sh[k][1]].w[sh[k][2]]],
    n   |-> IF ncs = 0 THEN 1 ELSE ncs,
-   frm |-> IF UsesForm(calls[s].doc, p) /\ calls[s].xo THEN "drawn" ELSE "",
+   frm |-> IF UsesForm(calls[s].doc, p) /\ calls[s].xo THEN FormTrace(calls[s].doc) ELSE "",
    img |-> IF ~HasInline(calls[s].doc, p) THEN ""
            ELSE IF "InlineNameIsAddress" \in Dev THEN "addr" \o ToString(heap) ELSE "inline0",
    grp |-> IF ~HasTie(calls[s].doc, p) THEN ""
@@ -591,12 +601,17 @@ AExecuteContents ==
   /\ Micro("font") /\ Me.todo = <<>>
   /\ LET sharedCached == SharedPages(Me.doc) /\ Me.caching IN
      SetMe([Me EXCEPT !.pc = "render", !.ex = (~sharedCached \/ Me.ca),
-                      !.ca = IF sharedCached /\ "ContentsArrayConsumed" \in Dev THEN FALSE ELSE @])
+                      !.ca = IF sharedCached /\ "ContentsArrayConsumed" \in Dev THEN FALSE ELSE @,
+                      \* do_Do: forms_in_progress holds the object numbers of the forms being rendered.  Dangerous
+                      \* alternative: the identity of the stream object - a new one for every Do when caching is off
+                      !.ovf = /\ "FormsInProgressByIdentity" \in Dev /\ ~Me.caching
+                              /\ FormCycle(Me.doc) /\ UsesForm(Me.doc, Me.cur) /\ Me.xo])
   /\ last' = NoLast /\ UNCHANGED <<base, cmapc, umapc, interned, heap, shared, running, ncalls, client, sched>>
 
 ARender ==
   /\ Micro("render")
-  /\ LET r == IF Me.ex THEN PageResult(running) ELSE NoRes      \* no content stream found: an empty page
+  /\ LET r == IF Me.ovf THEN [NoRes EXCEPT !.frm = "RecursionError"]
+              ELSE IF Me.ex THEN PageResult(running) ELSE NoRes  \* no content stream found: an empty page
          done == Me.done \cup {Me.cur}
          finished == (Me.atomic \/ AutoClose) /\ Me.pages \ done = {} IN
        /\ last' = [valid |-> TRUE, doc |-> Me.doc, page |-> Me.cur, res |-> r]
